@@ -188,7 +188,8 @@ class Row(object):
                  self_obj=None, exc="ValueError", exact=True, before=None,
                  extra_points=(), inject=None, max_depth=4, cite="",
                  note="", domain=None, no_inline=(), also_ok_exc=(),
-                 reject_by_return=None, models=None, cases=None):
+                 reject_by_return=None, models=None, cases=None,
+                 method_models=None):
         self.rid = rid
         self.prop = prop
         self.mod = mod
@@ -211,6 +212,7 @@ class Row(object):
         self.reject_by_return = reject_by_return   # value meaning "refused"
         self.models = models or {}
         self.cases = cases            # explicit list of (label, value)
+        self.method_models = method_models or {}
 
 
 # vary helpers ----------------------------------------------------------------
@@ -284,7 +286,8 @@ def run_row(check, repo, row):
         inject = dict(row.inject)
         inject.update(seed.get("inject", {}))
         it = Interp(repo, max_depth=row.max_depth, inject=inject,
-                    no_inline=row.no_inline, extra_models=row.models)
+                    no_inline=row.no_inline, extra_models=row.models,
+                    method_models=row.method_models)
         st = State()
         memo = {}
         args = dict((k, realise(s, it, st, memo)) for k, s in row.base.items())
@@ -299,6 +302,8 @@ def run_row(check, repo, row):
             p, key, x = seed["dict"]
             d = args.setdefault(p, {})
             d[key] = realise(x, it, st, memo)
+        for k in list(it.inject):
+            it.inject[k] = realise(it.inject[k], it, st, memo)
         res = it.run(mod, fn, args, self_obj=me, state=st)
         nrun += 1
         for k in inject:
@@ -461,6 +466,8 @@ def run_obs(check, repo, row):
         if "dict" in seed:
             p, key, x = seed["dict"]
             args.setdefault(p, {})[key] = realise(x, it, st, memo)
+        for k in list(it.inject):
+            it.inject[k] = realise(it.inject[k], it, st, memo)
         res = it.run(mod, fn, args, self_obj=me, state=st)
         got = row.observe(res, it)
         want = row.expected(v)
